@@ -295,8 +295,8 @@ struct X86MemM : Machine {
            S::from_value<x86::Mem::kSignatureMemBroadcastMask>(m.get_broadcast()) | S::from_size(m.size());
     x86::Mem c(sg, m.base_id(), m.index_id(), m.offset_lo32());
     // derived accessors must agree with the primary ones (folded into "eq")
-    bool derived = m.segment().id() == m.segment_id() && m.has_size(m.size()) && (!m.has_base_reg() || (m.base_reg().id() == m.base_id() && m.base_reg().reg_type() == m.base_type())) &&
-                   (!m.has_index_reg() || (m.index_reg().id() == m.index_id() && m.index_reg().reg_type() == m.index_type())) && uint32_t(m.offset_hi32()) == m.base_id();
+    bool derived = m.segment().id() == m.segment_id() && m.has_size(m.size()) && (!m.has_base_reg() || !Reg::signature_of(m.base_type()).is_valid() || (m.base_reg().id() == m.base_id() && m.base_reg().reg_type() == m.base_type())) &&
+                   (!m.has_index_reg() || !Reg::signature_of(m.index_type()).is_valid() || (m.index_reg().id() == m.index_id() && m.index_reg().reg_type() == m.index_type())) && uint32_t(m.offset_hi32()) == m.base_id();
     common_view(w, m, c, derived);
     base_mem_view(w, m);
     w.kv("size", m.size()).kv("hassize", m.has_size()).kv("rmsize", as_op(m).x86_rm_size()).kv("addr", (unsigned)m.addr_type()).kv("isabs", m.is_addr_abs())
